@@ -668,8 +668,9 @@ func runHist(o *opts) {
 		w := c.w
 		for k := 0; k < steps; k++ {
 			ek := applyEdit(rr, p, c, abs)
-			if ek == "" || ek == "dangle" || ek == "retarget" {
-				// dangling / re-pointed links cannot be committed (by design); skip those edits
+			if ek == "" || ek == "dangle" || ek == "retarget" || ek == "drop-object" {
+				// dangling / re-pointed links (also: links whose object was dropped from the cache) cannot be
+				// committed (by design); skip those edits
 				if ek != "" {
 					// undo is not possible in general: stop this history
 					break
